@@ -226,12 +226,25 @@ def is_basic_index(node: ast.AST) -> Optional[bool]:
 # ----------------------------------------------------------------------------- environment
 
 
+def _simple_test(t) -> bool:
+    """a test whose truth cannot change between two evaluations unless one of its names is re-bound: a plain name, an
+    attribute-free comparison of names and constants, `x is None`"""
+    if isinstance(t, ast.Name):
+        return True
+    if isinstance(t, ast.Compare) and len(t.ops) == 1 and all(isinstance(x, (ast.Name, ast.Constant)) for x in [t.left] + t.comparators):
+        return True
+    return False
+
+
 class Env:
     def __init__(self, parent: Optional["Env"] = None):
         self.vars: Dict[str, AV] = {}
         self.heap: Dict[Tuple[Origin, str], AV] = {}
         self.parent = parent
         self.globals_declared: set = set()
+        # correlated branches: name -> (text of the test, names the test reads, value when it held, value when it did not).
+        # `x = np.array(a) if flag else np.asarray(a)` followed by `if flag: x[...] -= ...` writes the copy only.
+        self.cond: Dict[str, tuple] = {}
 
     def get(self, name: str) -> Optional[AV]:
         e = self
@@ -249,9 +262,11 @@ class Env:
         c.vars = dict(self.vars)
         c.heap = dict(self.heap)
         c.globals_declared = set(self.globals_declared)
+        c.cond = dict(self.cond)
         return c
 
     def join_with(self, other: "Env"):
+        self.cond = {k: v for k, v in self.cond.items() if other.cond.get(k) == v}
         for k in set(self.vars) | set(other.vars):
             a, b = self.vars.get(k), other.vars.get(k)
             if a is None or b is None:
@@ -489,8 +504,21 @@ class FunctionAnalysis:
             l1 = self.exec_block(st.body, e1)
             l2 = self.exec_block(st.orelse, e2)
             if l1 and l2:
+                rec_ = {}
+                t_, flip = st.test, False
+                while isinstance(t_, ast.UnaryOp) and isinstance(t_.op, ast.Not):
+                    t_, flip = t_.operand, not flip
+                if _simple_test(t_):
+                    names_ = frozenset(x.id for x in ast.walk(t_) if isinstance(x, ast.Name))
+                    assigned = {y.id for b_ in (st.body, st.orelse) for s_ in b_ for y in ast.walk(s_)
+                                if isinstance(y, ast.Name) and isinstance(y.ctx, ast.Store)}
+                    if not (assigned & names_):
+                        for nme in assigned:
+                            a_, b_ = e1.vars.get(nme), e2.vars.get(nme)
+                            if a_ is not None and b_ is not None and a_ != b_:
+                                rec_[nme] = (ast.unparse(t_), names_, b_ if flip else a_, a_ if flip else b_)
                 e1.join_with(e2)
-                env.vars, env.heap = e1.vars, e1.heap
+                env.vars, env.heap, env.cond = e1.vars, e1.heap, dict(e1.cond, **rec_)
             elif l1:
                 env.vars, env.heap = e1.vars, e1.heap
             elif l2:
@@ -577,6 +605,14 @@ class FunctionAnalysis:
         return self.fi.qualname
 
     def _narrow(self, test, env: Env, branch: bool):
+        t_, b_ = test, branch
+        while isinstance(t_, ast.UnaryOp) and isinstance(t_.op, ast.Not):
+            t_, b_ = t_.operand, not b_
+        if _simple_test(t_) and env.cond:
+            key = ast.unparse(t_)
+            for nme, (k_, _names, v_true, v_false) in list(env.cond.items()):
+                if k_ == key and nme in env.vars:
+                    env.vars[nme] = v_true if b_ else v_false
         # `x is None` / `x is not None` refinement: on the None branch the value is not an alias of anything
         if isinstance(test, ast.Compare) and len(test.ops) == 1 and isinstance(test.left, ast.Name) \
                 and isinstance(test.comparators[0], ast.Constant) and test.comparators[0].value is None:
@@ -641,6 +677,14 @@ class FunctionAnalysis:
             if not v.cls and target.id in self.duck and v.kind not in ("scalar", "str", "none", "nd"):
                 v = replace(v, cls=self.duck[target.id])
             env.vars[target.id] = v
+            # a re-bound name ends every correlation it took part in
+            for k_ in [k_ for k_, rec in env.cond.items() if k_ == target.id or target.id in rec[1]]:
+                del env.cond[k_]
+            if isinstance(value_node, ast.IfExp) and _simple_test(value_node.test):
+                names_ = frozenset(x.id for x in ast.walk(value_node.test) if isinstance(x, ast.Name))
+                if target.id not in names_:
+                    env.cond[target.id] = (ast.unparse(value_node.test), names_, self.eval(value_node.body, env, quiet=True),
+                                           self.eval(value_node.orelse, env, quiet=True))
         elif isinstance(target, (ast.Tuple, ast.List)):
             if isinstance(value_node, (ast.Tuple, ast.List)) and len(value_node.elts) == len(target.elts):
                 for t, vn in zip(target.elts, value_node.elts):
